@@ -203,4 +203,13 @@ def run(ctx) -> Report:
         f"all {nalg} algorithm classes (cross-checked against the live dispatch tables)."
     )
     rep.assumptions = ["does not decide equivalence with the recursive definition (that needs the traversals' loop invariants); the clauses are necessary conditions"]
+    # the handler table must be the one of the exact algorithm class (shared rule with C20)
+    from .c20 import cache_key_rule, handler_cache_sites
+
+    hs = handler_cache_sites(prog)
+    if len(hs) < 2:
+        raise AnalysisError(f"found {len(hs)} class-level handler caches, expected MultiFunction and Transformer")
+    for cls, cname, init, fetches, kind in hs:
+        for fetch in fetches:
+            cache_key_rule(prog, rep, "C19-mro/cache", cls, cname, init, fetch, kind)
     return rep
